@@ -13,6 +13,7 @@ import (
 	"runtime/debug"
 	"sort"
 	"strings"
+	"sync"
 
 	"github.com/Oudwins/zog/parsers/zjson"
 	"github.com/Oudwins/zog/zhttp"
@@ -24,64 +25,121 @@ import (
 	"verif/harness/internal/rng"
 )
 
+// plantDirt pre-fills every recycled-object pool with objects whose every settable field holds a stale
+// value. The objects are obtained from the pools themselves and filled by reflection, so the harness
+// does not name the pooled types' fields (it keeps building, and keeps planting dirt in fields added
+// later, when those types are refactored).
 func plantDirt() {
-	for i := 0; i < 6; i++ {
-		c := &p.ExecCtx{}
-		c.Set(eng.LeakKey, "planted")
-		c.Set("lang", "es")
-		c.Fmter = func(e *p.ZogIssue, ctx p.Ctx) { e.SetMessage("STALE FORMATTER") }
-		p.ExecCtxPool.Put(c)
+	plant := func(pool *sync.Pool, n int, extra func(o any)) {
+		var objs []any
+		for i := 0; i < n; i++ {
+			objs = append(objs, pool.Get())
+		}
+		for _, o := range objs {
+			dirtyAny(reflect.ValueOf(o), 2)
+			if extra != nil {
+				extra(o)
+			}
+			pool.Put(o)
+		}
 	}
-	for i := 0; i < 24; i++ {
-		sc := &p.SchemaCtx{}
-		dirtyFields(reflect.ValueOf(sc).Elem(), 1) // every exported field, whatever the struct looks like now
-		p.SchemaCtxPool.Put(sc)
-		p.ZogIssuePool.Put(&p.ZogIssue{Code: "stale", Path: "stale.path", Value: "stale", Dtype: "stale", Params: map[string]any{"stale": 1}, Message: "STALE MESSAGE", Err: errors.New("stale")})
+	plant(&p.ExecCtxPool, 6, func(o any) {
+		if c, ok := o.(interface{ Set(string, any) }); ok {
+			c.Set(eng.LeakKey, "planted")
+			c.Set("lang", "es")
+		}
+		if c, ok := o.(interface{ SetIssueFormatter(p.IssueFmtFunc) }); ok {
+			c.SetIssueFormatter(func(e *p.ZogIssue, ctx p.Ctx) { e.SetMessage("STALE FORMATTER") })
+		}
+	})
+	plant(&p.SchemaCtxPool, 24, nil)
+	plant(&p.ZogIssuePool, 24, nil)
+	plant(&p.InternalIssueMapPool, 4, nil)
+	plant(&p.InternalIssueListPool, 4, nil)
+	plant(&p.PathBuilderPool, 4, nil)
+	plant(&p.StringBuilderPool, 4, func(o any) {
+		if sb, ok := o.(*strings.Builder); ok {
+			sb.WriteString("STALE")
+		}
+	})
+}
+
+// dirtyAny fills a pooled object (a pointer to a struct, slice or map) with stale content.
+func dirtyAny(v reflect.Value, depth int) {
+	if v.Kind() != reflect.Pointer || v.IsNil() {
+		return
 	}
-	for i := 0; i < 4; i++ {
-		p.InternalIssueMapPool.Put(&p.ErrsMap{M: p.ZogIssueMap{"stale": {&p.ZogIssue{Code: "stale"}}}})
-		p.InternalIssueListPool.Put(&p.ErrsList{List: p.ZogIssueList{&p.ZogIssue{Code: "stale"}}})
-		pb := p.PathBuilder{"", "stale", "more"}
-		p.PathBuilderPool.Put(&pb)
-		sb := &strings.Builder{}
-		sb.WriteString("STALE")
-		p.StringBuilderPool.Put(sb)
+	e := v.Elem()
+	switch e.Kind() {
+	case reflect.Struct:
+		dirtyFields(e, depth)
+	default:
+		if e.CanSet() {
+			if d, ok := staleValue(e.Type(), depth); ok {
+				e.Set(d)
+			}
+		}
 	}
 }
 
-// dirtyFields fills every settable field of a struct with a stale value (by reflection, so that the harness
-// keeps building and keeps planting dirt when fields are added, renamed or removed).
+// staleValue: a non-zero value of type t
+func staleValue(t reflect.Type, depth int) (reflect.Value, bool) {
+	switch t.Kind() {
+	case reflect.Bool:
+		return reflect.ValueOf(true).Convert(t), true
+	case reflect.String:
+		return reflect.ValueOf("stale").Convert(t), true
+	case reflect.Int, reflect.Int32, reflect.Int64:
+		return reflect.ValueOf(77).Convert(t), true
+	case reflect.Interface:
+		if t.NumMethod() == 0 {
+			return reflect.ValueOf("stale"), true
+		}
+		if reflect.TypeOf(errors.New("")).Implements(t) {
+			return reflect.ValueOf(errors.New("stale")), true
+		}
+	case reflect.Slice:
+		if depth > 0 {
+			if t.Elem().Kind() == reflect.String {
+				// a path-like stack: leading "" then stale segments
+				s := reflect.MakeSlice(t, 3, 3)
+				s.Index(1).Set(reflect.ValueOf("stale").Convert(t.Elem()))
+				s.Index(2).Set(reflect.ValueOf("more").Convert(t.Elem()))
+				return s, true
+			}
+			if x, ok := staleValue(t.Elem(), depth-1); ok {
+				s := reflect.MakeSlice(t, 1, 1)
+				s.Index(0).Set(x)
+				return s, true
+			}
+		}
+	case reflect.Map:
+		if depth > 0 && t.Key().Kind() == reflect.String {
+			if x, ok := staleValue(t.Elem(), depth-1); ok {
+				m := reflect.MakeMap(t)
+				m.SetMapIndex(reflect.ValueOf("stale").Convert(t.Key()), x)
+				return m, true
+			}
+		}
+	case reflect.Pointer:
+		if depth > 0 && t.Elem().Kind() == reflect.Struct && t.Elem().PkgPath() != "strings" && t.Elem().PkgPath() != "sync" {
+			n := reflect.New(t.Elem())
+			dirtyFields(n.Elem(), depth-1)
+			return n, true
+		}
+	}
+	return reflect.Value{}, false
+}
+
+// dirtyFields fills every settable field of a struct with a stale value.
 func dirtyFields(v reflect.Value, depth int) {
 	for i := 0; i < v.NumField(); i++ {
 		f := v.Field(i)
 		if !f.CanSet() {
 			continue
 		}
-		switch f.Kind() {
-		case reflect.Bool:
-			f.SetBool(true)
-		case reflect.String:
-			f.SetString("stale")
-		case reflect.Int, reflect.Int32, reflect.Int64:
-			f.SetInt(77)
-		case reflect.Interface:
-			if f.Type().NumMethod() == 0 {
-				f.Set(reflect.ValueOf("stale"))
-			} else if reflect.TypeOf(errors.New("")).Implements(f.Type()) {
-				f.Set(reflect.ValueOf(errors.New("stale")))
-			}
-		case reflect.Map:
-			if f.Type().Key().Kind() == reflect.String && f.Type().Elem().Kind() == reflect.Interface {
-				m := reflect.MakeMap(f.Type())
-				m.SetMapIndex(reflect.ValueOf("stale").Convert(f.Type().Key()), reflect.ValueOf(1))
-				f.Set(m)
-			}
-		case reflect.Pointer:
-			if depth > 0 && f.Type().Elem().Kind() == reflect.Struct {
-				n := reflect.New(f.Type().Elem())
-				dirtyFields(n.Elem(), depth-1)
-				f.Set(n)
-			}
+		if d, ok := staleValue(f.Type(), depth); ok {
+			f.Set(d)
 		}
 	}
 }
